@@ -159,6 +159,7 @@ class Interp:
         self.default_cache = {}  # (qualname, param) -> value : defaults are evaluated ONCE
         self.inlined = set()
         self.module_values = {}
+        self.no_fork = False
         from . import pylib, torchlib
 
         self.pylib = pylib
@@ -185,6 +186,10 @@ class Interp:
             return False
         if not can_t and not can_f:
             raise PathEnd("infeasible")
+        if self.no_fork:
+            # a history prefix explored along ONE of its paths: its inputs are restricted to that path
+            self.ctx.assume(cond)
+            return True
         if self.dpos < len(self.decisions):
             d = self.decisions[self.dpos]
         else:
@@ -198,6 +203,8 @@ class Interp:
 
     def choose(self, n, label=""):
         """nondeterministic choice among n alternatives (fork)"""
+        if self.no_fork:
+            return 0
         for k in range(n - 1):
             if self.dpos < len(self.decisions):
                 d = self.decisions[self.dpos]
@@ -225,6 +232,7 @@ class Interp:
             core.set_ctx(self.ctx)
             self.default_cache = {}
             self.module_values = {}
+            self.no_fork = False
             try:
                 r = ("ok", thunk())
             except RaisedEx as e:
@@ -367,7 +375,10 @@ class Interp:
 
     def call_resolved(self, c, m, name, args, kwargs):
         if isinstance(m, ast.AST):
-            return self.call_func(SFunc(m, c.module, c, name=name), args, kwargs)
+            f = self.method_func(c, m, name)
+            if not isinstance(f, SFunc):
+                return self.call(f, args, kwargs)
+            return self.call_func(f, args, kwargs)
         return m(self, *args, **kwargs)
 
     def call_method(self, obj, name, args, kwargs=None):
@@ -594,7 +605,8 @@ class Interp:
             env.vars[a.asname or a.name] = self.resolve_lazy(self.repo.import_from(full, a.name), env.module)
 
     def s_FunctionDef(self, st, env):
-        env.vars[st.name] = SFunc(st, env.module, None, closure=env, name=st.name)
+        f = SFunc(st, env.module, None, closure=env, name=st.name)
+        env.vars[st.name] = self.decorate(f, st.decorator_list, env) if st.decorator_list else f
 
     def s_Global(self, st, env):
         raise Unsupported("global statement")
@@ -843,12 +855,33 @@ class Interp:
         return e.value
 
     def resolve_lazy(self, v, module):
-        if isinstance(v, tuple) and len(v) == 2 and v[0] == "lazy-assign":
+        if isinstance(v, tuple) and len(v) in (2, 3) and v[0] == "lazy-assign":
+            if len(v) == 3:
+                module = v[2]  # the DEFINING module: one value (and one cache of a memoising decorator) per definition
             key = (module.name, id(v[1]))
             if key not in self.module_values:
-                self.module_values[key] = self.eval(v[1], Env(module=module))
+                if isinstance(v[1], ast.FunctionDef):
+                    self.module_values[key] = self.decorate(SFunc(v[1], module), v[1].decorator_list, Env(module=module))
+                else:
+                    self.module_values[key] = self.eval(v[1], Env(module=module))
             return self.module_values[key]
         return v
+
+    def decorate(self, f, decorator_list, env):
+        for d in reversed(decorator_list):
+            f = self.call(self.eval(d, env), [f], {})
+        return f
+
+    def method_func(self, c, m, name):
+        """the callable stored in the class under `name`: the def, or what its (non-builtin) decorators made of it"""
+        f = SFunc(m, c.module, c, name=name)
+        decs = getattr(c, "decorated", {}).get(name)
+        if not decs:
+            return f
+        key = ("method", c.qualname, name)
+        if key not in self.module_values:
+            self.module_values[key] = self.decorate(f, decs, Env(module=c.module))
+        return self.module_values[key]
 
     def e_Name(self, e, env):
         found, v = env.lookup(e.id)
@@ -970,10 +1003,18 @@ class Interp:
             c, m = self.find_prop(o.cls, name)
             if m is not None:
                 if isinstance(m, ast.AST):
-                    return self.call_func(SFunc(m, c.module, c, name=name), [o], {})
+                    r = self.call_func(SFunc(m, c.module, c, name=name), [o], {})
+                    if name in getattr(c, "cached_props", ()):
+                        o.f[name] = r
+                    return r
                 return m(self, o)
             c, m = self.find_method(o.cls, name)
             if m is not None:
+                if isinstance(m, ast.AST) and name in getattr(c, "decorated", {}):
+                    f = self.method_func(c, m, name)
+                    if name in c.staticmethods:
+                        return f
+                    return BoundMethod(o.cls if name in c.classmethods else o, f if isinstance(f, SFunc) else (lambda I2, *a, _f=f, **k: I2.call(_f, list(a), k)))
                 if name in c.staticmethods:
                     return SFunc(m, c.module, c, name=name)
                 if name in c.classmethods:
@@ -1003,6 +1044,11 @@ class Interp:
                     return Builtin("object.__new__", lambda I2, c, *a, **k: I2.new_without_init(c))
             c, m = self.find_method(o, name)
             if m is not None:
+                if isinstance(m, ast.AST) and name in getattr(c, "decorated", {}):
+                    f = self.method_func(c, m, name)
+                    if name in c.classmethods:
+                        return BoundMethod(o, f if isinstance(f, SFunc) else (lambda I2, *a, _f=f, **k: I2.call(_f, list(a), k)))
+                    return f
                 if name in c.classmethods:
                     if isinstance(m, ast.AST):
                         return BoundMethod(o, SFunc(m, c.module, c, name=name))
